@@ -49,7 +49,7 @@ def main():
             if not cand.startswith(("tmp/", "/")) and "seed_out" not in cand:
                 demo_target = cand
                 break
-    cmdm = re.search(r"^\s*(go test [^\n]*)$", demo_md, re.M)
+    cmdm = re.search(r"^\s*(go test [^\n]*)$", demo_md, re.M) or re.search(r"`(go test [^`\n]*)`", demo_md) or re.search(r"(go test -[^\n`]*\./[\w./-]+/?)", demo_md)
     demo_cmd = cmdm.group(1).strip() if cmdm else None
     if not demo_target and demo_cmd and demos:
         pk = [w for w in demo_cmd.split() if w.startswith("./")]
